@@ -502,8 +502,8 @@ func (x *evalCtx) node(n *Node, sc *tScope) (string, int, int) {
 		}
 		// "each @reserve(n) is replaced by the page's @insert(n) content": the body is evaluated in
 		// place, in the scope at the reserve (an assignment in it is visible to what follows in that block)
-		s, st, _ := x.nodes(ins.Body, sc)
-		return s, st, ctlNone
+		s, st, ctl := x.nodes(ins.Body, sc)
+		return s, st, ctl // a @break / @continue in the insert content acts on the layout's loop around the reserve
 	case "insert":
 		return "", sOK, ctlNone
 	case "component":
